@@ -28,6 +28,7 @@ pub const INLINE_NUMS: &[&str] = &["180", "350", "2", "1.5", "0.5"];
 pub const META_KEYS: &[&str] = &["note", "origin", "my key", "wine pairing", "x", "Kitchen", "season", "equipment notes", "clé", "rating"];
 pub const META_VALUES: &[&str] = &["value", "a longer value", "https://example.org/a?b=c", "1", "yes: no", "Ünïcode ✓", "it's \"quoted\"", "a, b, c", "3.5 stars"];
 pub const SECTION_NAMES: &[&str] = &["Dough", "Filling", "To serve", "Step 2 prep", "Crème", "sauce & sides"];
+pub const STEP_LINES: &[&str] = &[">> note: remember the oven", ">> [optional: add more of it", ">> see note [a]: later", ">> wine pairing: red", ">> my key : spaced out", ">>x:y"];
 pub const DEC_FRACS: &[&str] = &["5", "25", "05", "75", "125", "0", "50"];
 
 /// Words usable as a single-word component name (one word/int token run, no punctuation)
@@ -650,6 +651,13 @@ pub fn build(raw: &RawRecipe, strict: bool) -> RecipeM {
             }
             RawBlock::Meta(k, v) => {
                 if has_front {
+                    // with a front matter, `>>` lines are plain steps (their text is the line)
+                    if matches!(b.mode, ModeM::All | ModeM::Steps) && (*k as usize + *v as usize) % 3 != 0 {
+                        let line = STEP_LINES[(*k as usize * 7 + *v as usize) % STEP_LINES.len()];
+                        b.section_has_content = true;
+                        b.steps_in_section += 1;
+                        blocks.push(BlockM::StepLine(line.to_string()));
+                    }
                     continue;
                 }
                 let key = META_KEYS[*k as usize % META_KEYS.len()].to_string();
